@@ -461,7 +461,7 @@ pub fn inter_check(c: &InterCase, info: &mut CaseInfo) -> Result<(), Fail> {
 pub fn run_c18(ctx: &mut Ctx) {
     let reps = if ctx.replay.is_some() { 40 } else { 1 };
     ctx.max_shrink = 80;
-    let n = ctx.count(400, 8_000);
+    let n = ctx.count(1_500, 15_000);
     ctx.run("concurrent-cold-start", n, cold_strategy(), move |c, i| conc_check(c, reps, i));
     let n = ctx.count(48, 800);
     ctx.run("concurrent-sustained", n, sustained_strategy(), move |c, i| conc_check(c, reps, i));
